@@ -279,4 +279,284 @@ theorem dftStep_spec (c : Cfg) (B : Bank α) (w : WF c B) (X : Int → α) (n1 L
     rw [e, e2, List.range'_append_1]
   · simp [iok]
 
+
+theorem dftLoop_spec (c : Cfg) (B : Bank α) (w : WF c B) (X : Int → α) (n1 L xRem0 yRem0 E0 : Nat)
+    (hpos : 0 < xRem0 + L → skip0 c ≤ n1) (hP : E0 * c.S + yRem0 + xRem0 = rawN c n1)
+    (hxle : xRem0 ≤ vPerDft c) :
+    ∀ (k d : Nat) (s : Loop α), LoopInv c B X n1 L xRem0 yRem0 E0 d s →
+      (∀ d', d' < d + k → d' * vPerDft c < xRem0 + L) →
+      LoopInv c B X n1 L xRem0 yRem0 E0 (d + k) (dftLoop c B (seg X n1 L) xRem0 k d s) := by
+  intro k
+  induction k with
+  | zero => intro d s inv _; simpa [dftLoop] using inv
+  | succ k ih =>
+    intro d s inv hd
+    unfold dftLoop
+    have hdV := hd d (by omega)
+    have h1 := dftStep_spec c B w X n1 L xRem0 yRem0 E0 d (hpos (by omega)) hP hxle hdV s inv
+    have h2 := ih (d + 1) _ h1 (by intro d' hd'; exact hd d' (by omega))
+    have e : d + 1 + k = d + (k + 1) := by omega
+    rw [e] at h2
+    exact h2
+
+/-! ### counting: how many DFTs, how many frames -/
+
+/-- `num_dfts` of `compute_chunk` -/
+def numDftsOf (S V xr yr L : Nat) : Nat :=
+  if (if ((xr + L + yr) / S - 1) ≠ 0 then ((xr + L + yr) / S - 1 + 1) * S else yr) - yr > (xr + L) / V * V
+  then (xr + L) / V + 1 else (xr + L) / V
+
+theorem numDfts_valid (S V xr yr L : Nat) (hS : 0 < S) (hV : 0 < V) :
+    ∀ d', d' < numDftsOf S V xr yr L → d' * V < xr + L := by
+  intro d' hd'
+  unfold numDftsOf at hd'
+  obtain ⟨a1, a2⟩ := div_facts (xr + L + yr) S hS
+  obtain ⟨b1, b2⟩ := div_facts (xr + L) V hV
+  generalize (xr + L + yr) / S = qa at *
+  generalize (xr + L) / V = qb at *
+  split_ifs at hd' with h1 h2 h2
+  · -- extra DFT, frames pending
+    have e1 : (qa - 1 + 1) * S = qa * S := by congr 1; omega
+    rw [e1] at h2
+    have : d' * V ≤ qb * V := Nat.mul_le_mul_right V (by omega)
+    omega
+  · have : (d' + 1) * V ≤ qb * V := Nat.mul_le_mul_right V (by omega)
+    rw [Nat.succ_mul] at this
+    omega
+  · omega
+  · have : (d' + 1) * V ≤ qb * V := Nat.mul_le_mul_right V (by omega)
+    rw [Nat.succ_mul] at this
+    omega
+
+theorem count_arith (S V xr yr L E0 E' yR' : Nat) (hS : 0 < S) (hV : 0 < V)
+    (hE0 : E0 = (E0 * S + xr + yr) / S - 1)
+    (hT : E' * S + yR' = E0 * S + yr + min (numDftsOf S V xr yr L * V) (xr + L))
+    (h2 : yR' < 2 * S) (hE : E0 ≤ E') (hD : E' = E0 ∨ S ≤ yR') :
+    E' - E0 = (xr + L + yr) / S - 1 ∧
+    E' = (E0 * S + xr + yr + L) / S - 1 ∧
+    (xr + L - numDftsOf S V xr yr L * V) + yR' + E' * S = E0 * S + xr + yr + L ∧
+    xr + L - numDftsOf S V xr yr L * V ≤ V := by
+  obtain ⟨a1, a2⟩ := div_facts (xr + L + yr) S hS
+  obtain ⟨b1, b2⟩ := div_facts (xr + L) V hV
+  have hdiv : (E0 * S + xr + yr + L) / S = E0 + (xr + L + yr) / S := by
+    have : E0 * S + xr + yr + L = (xr + L + yr) + E0 * S := by omega
+    rw [this, Nat.add_mul_div_right _ _ hS]; omega
+  have hdiv0 : (E0 * S + xr + yr) / S = E0 + (xr + yr) / S := by
+    have : E0 * S + xr + yr = (xr + yr) + E0 * S := by omega
+    rw [this, Nat.add_mul_div_right _ _ hS]; omega
+  rw [hdiv0] at hE0
+  rw [hdiv]
+  obtain ⟨c1, c2⟩ := div_facts (xr + yr) S hS
+  -- value of min (nd·V) numRaw and of numRaw - nd·V
+  have hnd : (min (numDftsOf S V xr yr L * V) (xr + L) = xr + L ∧ xr + L - numDftsOf S V xr yr L * V = 0 ∧
+        ((xr + L + yr) / S - 1 ≠ 0 ∨ True)) ∨
+      (numDftsOf S V xr yr L = (xr + L) / V ∧
+        (if ((xr + L + yr) / S - 1) ≠ 0 then ((xr + L + yr) / S - 1 + 1) * S else yr) ≤ yr + (xr + L) / V * V) := by
+    unfold numDftsOf
+    split_ifs with h1 h2 h2
+    · left
+      rw [Nat.succ_mul]
+      omega
+    · right; exact ⟨rfl, by omega⟩
+    · left
+      rw [Nat.succ_mul]
+      omega
+    · right; exact ⟨rfl, by omega⟩
+  generalize (xr + L + yr) / S = qa at *
+  generalize (xr + L) / V = qb at *
+  generalize (xr + yr) / S = qc at *
+  generalize hnd' : numDftsOf S V xr yr L = nd at *
+  -- E0 = 0 unless a frame's worth was already pending
+  have hE0' : qc = 0 → E0 = 0 := by intro h; omega
+  have hqc : qc ≤ qa := by
+    by_contra hc
+    have : (qa + 1) * S ≤ qc * S := Nat.mul_le_mul_right S (by omega)
+    rw [Nat.succ_mul] at this
+    omega
+  rcases hnd with ⟨m1, m2, _⟩ | ⟨m1, m2⟩
+  · rw [m1] at hT
+    rw [m2]
+    -- all raw samples were filtered: E'·S + yR' = E0·S + (xr + L + yr)
+    have key : E' - E0 = qa - 1 := by
+      rcases hD with h | h
+      · subst h
+        have : qa * S ≤ 1 * S + S := by omega
+        have : qa ≤ 2 := by
+          by_contra hc
+          have : 3 * S ≤ qa * S := Nat.mul_le_mul_right S (by omega)
+          omega
+        rcases Nat.lt_or_ge qa 2 with h' | h'
+        · omega
+        · have : qa = 2 := by omega
+          subst this
+          omega
+      · obtain ⟨g, rfl⟩ : ∃ g, E' = E0 + g := ⟨E' - E0, by omega⟩
+        rw [Nat.add_mul] at hT
+        have hg1 : g * S + S ≤ xr + L + yr := by omega
+        have hg2 : xr + L + yr < g * S + 2 * S := by omega
+        have : g + 1 = qa := by
+          apply Nat.le_antisymm
+          · by_contra hc
+            have : (qa + 1) * S ≤ (g + 1) * S := Nat.mul_le_mul_right S (by omega)
+            rw [Nat.succ_mul, Nat.succ_mul] at this
+            omega
+          · by_contra hc
+            have : (g + 2) * S ≤ qa * S := Nat.mul_le_mul_right S (by omega)
+            rw [Nat.add_mul] at this
+            omega
+        omega
+    refine ⟨key, ?_, by omega, by omega⟩
+    rcases Nat.eq_zero_or_pos qa with h | h
+    · have : qc = 0 := by omega
+      have := hE0' this
+      omega
+    · omega
+  · rw [m1] at hT ⊢
+    have hmin : min (qb * V) (xr + L) = qb * V := by omega
+    rw [hmin] at hT
+    have key : E' - E0 = qa - 1 := by
+      by_cases hnf : qa - 1 ≠ 0
+      · rw [if_pos hnf] at m2
+        have e1 : (qa - 1 + 1) * S = qa * S := by congr 1; omega
+        rw [e1] at m2
+        -- qa·S ≤ yr + qb·V ≤ xr + L + yr < qa·S + S
+        rcases hD with h | h
+        · subst h
+          have : 2 * S ≤ qa * S := Nat.mul_le_mul_right S (by omega)
+          omega
+        · obtain ⟨g, rfl⟩ : ∃ g, E' = E0 + g := ⟨E' - E0, by omega⟩
+          rw [Nat.add_mul] at hT
+          have : g + 1 = qa := by
+            apply Nat.le_antisymm
+            · by_contra hc
+              have : (qa + 1) * S ≤ (g + 1) * S := Nat.mul_le_mul_right S (by omega)
+              rw [Nat.succ_mul, Nat.succ_mul] at this
+              omega
+            · by_contra hc
+              have : (g + 2) * S ≤ qa * S := Nat.mul_le_mul_right S (by omega)
+              rw [Nat.add_mul] at this
+              omega
+          omega
+      · have hq : qa ≤ 1 := by omega
+        have : qa * S ≤ 1 * S := Nat.mul_le_mul_right S hq
+        rcases hD with h | h
+        · omega
+        · obtain ⟨g, rfl⟩ : ∃ g, E' = E0 + g := ⟨E' - E0, by omega⟩
+          rw [Nat.add_mul] at hT
+          rcases Nat.eq_zero_or_pos g with h0 | h0
+          · omega
+          · have : 1 * S ≤ g * S := Nat.mul_le_mul_right S h0
+            omega
+    refine ⟨key, ?_, by omega, by omega⟩
+    rcases Nat.eq_zero_or_pos qa with h | h
+    · have : qc = 0 := by omega
+      have := hE0' this
+      omega
+    · omega
+
+
+/-! ### `compute_chunk` -/
+
+theorem split_bounds (c : Cfg) (hS : 0 < c.S) (n xr yr : Nat)
+    (h : xr + yr + emitted c n * c.S = rawN c n) :
+    emitted c n = (emitted c n * c.S + xr + yr) / c.S - 1 ∧ xr + yr < 2 * c.S := by
+  have e : emitted c n * c.S + xr + yr = rawN c n := by omega
+  rw [e]
+  refine ⟨rfl, ?_⟩
+  obtain ⟨q1, q2⟩ := div_facts (rawN c n) c.S hS
+  unfold emitted at h
+  generalize rawN c n / c.S = q at *
+  rcases Nat.eq_zero_or_pos q with h0 | h0
+  · subst h0; simp at h q2; omega
+  · obtain ⟨q', rfl⟩ : ∃ q', q = q' + 1 := ⟨q - 1, by omega⟩
+    rw [Nat.add_sub_cancel] at h
+    rw [Nat.succ_mul] at q1 q2
+    omega
+
+theorem final_xbuf (D : Nat) (X : Int → α) (n1 : Int) (L cp : Nat) (hcp : cp ≤ L) :
+    (if L - cp ≠ 0 then
+        (seg X (n1 + cp - D) D).drop (min D (L - cp)) ++ (seg X n1 L).drop (L - min D (L - cp))
+      else seg X (n1 + cp - D) D) = seg X (n1 + L - D) D := by
+  by_cases h : L - cp ≠ 0
+  · rw [if_pos h, seg_drop, seg_drop]
+    by_cases hk : L - cp ≤ D
+    · have := seg_append' X (n1 + cp - D + ((min D (L - cp) : Nat) : Int)) (D - min D (L - cp))
+        (L - (L - min D (L - cp))) (n1 + ((L - min D (L - cp) : Nat) : Int)) (by omega)
+      rw [this]
+      congr 1 <;> omega
+    · have e1 : D - min D (L - cp) = 0 := by omega
+      rw [e1, seg_zero, List.nil_append]
+      congr 1 <;> omega
+  · rw [if_neg h]
+    congr 1
+    omega
+
+/-- **one `compute_chunk` call.**  From a state that has consumed the first `n` samples of `X`, feeding
+the next `m` samples succeeds (every run-time check of the code holds), returns exactly the frames
+`emitted n ≤ k < emitted (n+m)`, and leaves a state that has consumed `n + m` samples. -/
+theorem chunkCore_spec (c : Cfg) (B : Bank α) (w : WF c B) (X : Int → α) (n m : Nat) (st : St α)
+    (inv : Inv c B X n st) :
+    ∃ st', chunkCore c B st (seg X n m)
+        = .ok (st', (List.range' (emitted c n) (emitted c (n + m) - emitted c n)).map (mFrame c B X)) ∧
+      Inv c B X (n + m) st' ∧ st'.dtype = st.dtype ∧ emitted c n ≤ emitted c (n + m) := by
+  have hS := w.hS
+  obtain ⟨hVS, hVM⟩ := vPerDft_ge w
+  have hV : 0 < vPerDft c := by omega
+  obtain ⟨hE0, h2S⟩ := split_bounds c hS n st.xRem st.yRem inv.split
+  have hskip := inv.skip
+  have hsplit := inv.split
+  have hsx := skip_or_xrem c
+  -- positions
+  have hraw1 : rawN c (n + min st.skip m) = rawN c n := by unfold rawN; omega
+  have hrawL : rawN c (n + m) = rawN c n + (m - min st.skip m) := by unfold rawN; omega
+  have hpos : 0 < st.xRem + (m - min st.skip m) → skip0 c ≤ n + min st.skip m := by
+    intro h
+    by_contra hc
+    unfold rawN at hsplit
+    omega
+  have hP : emitted c n * c.S + st.yRem + st.xRem = rawN c (n + min st.skip m) := by omega
+  -- the loop
+  have inv0 : LoopInv c B X (n + min st.skip m) (m - min st.skip m) st.xRem st.yRem (emitted c n) 0
+      { xbuf := seg X (((n + min st.skip m : Nat) : Int) - c.D) c.D, copied := 0, ybuf := st.ybuf,
+        yRem := st.yRem, frames := [], ok := true } := by
+    refine ⟨emitted c n, ?_, ?_, inv.ybuf, ?_, ?_, Nat.le_refl _, Or.inl rfl, ?_, rfl⟩
+    · simp
+    · simp [ePrev]
+    · simp
+    · dsimp only; omega
+    · simp
+  have hloop := dftLoop_spec c B w X (n + min st.skip m) (m - min st.skip m) st.xRem st.yRem (emitted c n)
+    hpos hP inv.xle (numDftsOf c.S (vPerDft c) st.xRem st.yRem (m - min st.skip m)) 0 _ inv0
+    (by intro d' hd'; rw [Nat.zero_add] at hd'
+        exact numDfts_valid c.S (vPerDft c) st.xRem st.yRem (m - min st.skip m) hS hV d' hd')
+  rw [Nat.zero_add] at hloop
+  unfold chunkCore
+  rw [handleSkip_spec c B w X n m st inv]
+  simp only [seg_length]
+  obtain ⟨E', ix, ic, iy, iT, i2, iE, iD, iF, iok⟩ := hloop
+  obtain ⟨k1, k2, k3, k4⟩ := count_arith c.S (vPerDft c) st.xRem st.yRem (m - min st.skip m)
+    (emitted c n) E' _ hS hV hE0 iT i2 iE iD
+  unfold numDftsOf at ix ic iy iT i2 iD iF iok k3 k4
+  generalize dftLoop c B (seg X ((n + min st.skip m : Nat) : Int) (m - min st.skip m)) st.xRem
+      _ 0 _ = r at *
+  have hE' : E' = emitted c (n + m) := by
+    have : emitted c n * c.S + st.xRem + st.yRem + (m - min st.skip m) = rawN c (n + m) := by omega
+    rw [k2, this]; rfl
+  have hlen : r.frames.length = (st.xRem + (m - min st.skip m) + st.yRem) / c.S - 1 := by
+    rw [iF]; simp [k1]
+  rw [if_pos (by rw [iok, hlen]; simp)]
+  rw [iF, hE']
+  refine ⟨_, rfl, ?_, rfl, by omega⟩
+  · have hcp : r.copied ≤ m - min st.skip m := by unfold ePrev at ic; omega
+    refine ⟨?_, ?_, ?_, ?_, ?_, rfl⟩
+    · dsimp only
+      rw [ix, final_xbuf c.D X _ _ _ hcp]
+      congr 1; omega
+    · dsimp only; omega
+    · dsimp only
+      rw [← hE', hrawL, ← hsplit]
+      omega
+    · dsimp only; exact k4
+    · dsimp only; rw [iy, hE']
+
 end PdsVerif.SiChunk
